@@ -104,6 +104,13 @@ def _run_task(task):
     return out
 
 
+# obligations that are only SUFFICIENT for the property (proof steps): loop invariants and variants, and clauses a contract marks as such (the shape of
+# the code: stage order, forwarding by identity, "nothing shared is written"). When one is refuted and the native replay - which tests BEHAVIOUR against the
+# specification - finds no failing input, the proof is lost but no violation of the property is shown: the run is undecided (exit 2), not an alarm.
+# Postconditions, raises clauses, table lemmas and bounded clauses are necessary conditions: refuted means violated.
+SUFFICIENT_KINDS = ('sufficient', 'inv-establish', 'inv-preserve', 'variant')
+
+
 def load_known_findings():
     p = os.path.join(VERIF, 'known_findings.json')
     if not os.path.exists(p):
@@ -273,7 +280,7 @@ def run_property(prop, contract_module, tier='quick', seed=0, procs=None, extra_
         seen[f['name']] = ent
         if kf is not None:
             known_hit[kf['id']] = ent
-        elif f['kind'] == 'sufficient' and not confirmed:
+        elif f['kind'] in SUFFICIENT_KINDS and not confirmed:
             # the obligation is only a SUFFICIENT condition of the property (e.g. "no function writes shared state" for purity): when it
             # fails and the native replay finds no behavioural difference, the argument is lost but the property is not shown to be violated
             undecided.append(dict(f, note='sufficient condition fails, no behavioural difference found natively (replay %s): %s' % (path, str(f.get('model'))[:160])))
